@@ -939,6 +939,7 @@ class HistogramBase(abc.ABC):
             if config.free_arithmetics:
                 self += other * (-1)
             else:
+                self._coerce_dtype(other.dtype)
                 adapted_self = self + 0 * other
                 adapted_other = 0 * self + other
                 self.frequencies = adapted_self.frequencies - adapted_other.frequencies
